@@ -17,137 +17,42 @@ structure Fits32With (w : LW R) (es : List (Event String String)) : Prop where
   nOuts : (w.outcomes ++ (countNames es).2.filter (fun o => !w.outcomes.contains o)).length < 4294967296
   perEvent : ∀ e ∈ es, e.cues.length < 4294967296 ∧ e.outcomes.length < 4294967296
 
-theorem mem_append_filter_new (old new : List String) (x : String) (h : x ∈ new) :
-    x ∈ old ++ new.filter (fun c => !old.contains c) := by
-  by_cases ho : x ∈ old
-  · exact List.mem_append_left _ ho
-  · apply List.mem_append_right
-    rw [List.mem_filter]
-    refine ⟨h, ?_⟩
-    simp [ho]
+/-- the merged outcome labels of a continued call: old labels, then the new names -/
+def mergedOutcomes (w : LW R) (es : List (Event String String)) : List String :=
+  w.outcomes ++ (countNames es).2.filter (fun o => !w.outcomes.contains o)
 
 theorem size_extendVals (old : Array R) (a b c d : Nat) : (extendVals old a b c d).size = c * d := by
   simp [extendVals]
 
 /-- **continued `ndl.ndl` = specification continued from the given weights**:
-    with `weights = w` (any labelled matrix), the model returns a matrix whose
+    with `weights = w` (a labelled matrix), the model returns a matrix whose
     value at every (outcome, cue) is `rwLearn` started from the weight
-    function `w` denotes — also when the events bring new cues and outcomes. -/
+    function `w` denotes — also when the events bring new cues and outcomes.
+    `hcfg`: legal chunking arguments w.r.t. the MERGED outcome labels (OpenMP:
+    their number plus `n_outcomes_per_job` is below 2³²). -/
 theorem ndlModel_continue_eq_spec (magic version : Nat) (hm : magic < 4294967296) (hv : version < 4294967296)
-    (cfg : NdlCfg) (hper : 2 ≤ cfg.perFile) (hjob : 1 ≤ cfg.perJob) (alpha β₁ β₂ lam : R)
+    (cfg : NdlCfg) (alpha β₁ β₂ lam : R)
     (w : LW R) (es es' : List (Event String String))
+    (hcfg : CfgOK cfg (mergedOutcomes w es).length)
     (hp : applyPolicyAll cfg.policy es = some es') (hfit : Fits32With w es) :
     ∃ r, ndlModel magic version cfg alpha β₁ β₂ lam (some w) es = .ok (r, es.length) ∧
       ∀ o c, r.get o c = rwLearn (fun _ => alpha) β₁ β₂ lam (fun o c => w.get o c) es' o c := by
-  rcases hcn : countNames es with ⟨cuesNew, outsNew⟩
+  rw [ndlModel_some]
+  set cuesNew := (countNames es).1 with hcn1
+  set outsNew := (countNames es).2 with hcn2
   set cues := w.cues ++ cuesNew.filter (fun c => !w.cues.contains c) with hcues
   set outs := w.outcomes ++ outsNew.filter (fun o => !w.outcomes.contains o) with houts
-  have hmemc : ∀ e ∈ es, ∀ c ∈ e.cues, c ∈ cues := fun e he c hc => by
-    have := (countNames_mem es e he).1 c hc; rw [hcn] at this
-    exact mem_append_filter_new _ _ _ this
-  have hmemo : ∀ e ∈ es, ∀ o ∈ e.outcomes, o ∈ outs := fun e he o ho => by
-    have := (countNames_mem es e he).2 o ho; rw [hcn] at this
-    exact mem_append_filter_new _ _ _ this
-  have hnc : cues.length < 4294967296 := by have := hfit.nCues; rw [hcn] at this; exact this
-  have hno : outs.length < 4294967296 := by have := hfit.nOuts; rw [hcn] at this; exact this
-  set f : String → Nat := (cues.idxOf ·) with hf
-  set g : String → Nat := (outs.idxOf ·) with hg
-  have hmap : es.map (toIds cues outs) = es.map (fun e => (⟨e.cues.map f, e.outcomes.map g⟩ : Event Nat Nat)) := rfl
-  have hpid : applyPolicyAll cfg.policy (es.map (toIds cues outs))
-      = some (es'.map (fun e => (⟨e.cues.map f, e.outcomes.map g⟩ : Event Nat Nat))) := by
-    rw [hmap]
-    apply applyPolicyAll_map f g cfg.policy es es' _ _ hp
-    · intro e he a ha b hb hab
-      exact idxOf_injOn cues a b (hmemc e he a ha) (hmemc e he b hb) hab
-    · intro e he a ha b hb hab
-      exact idxOf_injOn outs a b (hmemo e he a ha) (hmemo e he b hb) hab
-  set ids' := es'.map (fun e => (⟨e.cues.map f, e.outcomes.map g⟩ : Event Nat Nat)) with hids'
-  have hes' : ∀ e' ∈ es', (∀ c ∈ e'.cues, c ∈ cues) ∧ (∀ o ∈ e'.outcomes, o ∈ outs) ∧
-      e'.cues.length < 4294967296 ∧ e'.outcomes.length < 4294967296 := by
-    intro e' he'
-    obtain ⟨e, he, hpe⟩ := applyPolicyAll_mem cfg.policy es es' hp e' he'
-    obtain ⟨s1, s2, s3, s4⟩ := applyPolicy_sub cfg.policy e e' hpe
-    have hb := hfit.perEvent e he
-    exact ⟨fun c hc => hmemc e he c ((s1 c).mp hc), fun o ho => hmemo e he o ((s2 o).mp ho),
-      by omega, by omega⟩
-  have hper1 : 1 ≤ cfg.perFile := by omega
-  have hlen : (es.map (toIds cues outs)).length = es.length := by simp
-  have hmk := makeChunks_ok magic version cfg.policy (es.map (toIds cues outs)) ids' hpid cfg.perFile hper1
-  rw [hlen] at hmk
-  set chunks := (List.range (nChunks es.length cfg.perFile)).map (chunkOf cfg.perFile ids') with hchunks
-  have hfiles : (List.range (nChunks es.length cfg.perFile)).map
-      (fun k => encodeChunk magic version (chunkOf cfg.perFile ids' k)) = chunks.map (encodeChunk magic version) := by
-    rw [hchunks, List.map_map]; rfl
-  have hlen' : ids'.length = es.length := by
-    rw [hids', List.length_map]; exact applyPolicyAll_length cfg.policy es es' hp
-  have hflat : chunks.flatten = ids' := by
-    rw [hchunks]
-    exact chunks_flatten ids' cfg.perFile hper1 _ (by rw [hlen']; exact nChunks_covers es.length cfg.perFile hper1)
-  have hidwf : ∀ e ∈ ids', EventWf e ∧ (∀ c ∈ e.cues, c < cues.length) := by
-    intro e he
-    rw [hids'] at he
-    obtain ⟨e', he', rfl⟩ := List.mem_map.mp he
-    obtain ⟨a1, a2, a3, a4⟩ := hes' e' he'
-    refine ⟨⟨?_, ?_, by simpa using a3, by simpa using a4⟩, ?_⟩
-    · intro i hi
-      obtain ⟨c, hc, rfl⟩ := List.mem_map.mp hi
-      have := List.idxOf_lt_length_iff.mpr (a1 c hc)
-      show cues.idxOf c < 4294967296
-      omega
-    · intro i hi
-      obtain ⟨o, ho, rfl⟩ := List.mem_map.mp hi
-      have := List.idxOf_lt_length_iff.mpr (a2 o ho)
-      show outs.idxOf o < 4294967296
-      omega
-    · intro i hi
-      obtain ⟨c, hc, rfl⟩ := List.mem_map.mp hi
-      exact List.idxOf_lt_length_iff.mpr (a1 c hc)
-  have hchunkwf : ∀ c ∈ chunks, c.length < 4294967296 ∧ Wf32 c := by
-    intro c hc
-    have hsub : ∀ e ∈ c, e ∈ ids' := by
-      intro e he
-      rw [← hflat]; exact List.mem_flatten.mpr ⟨c, hc, he⟩
-    constructor
-    · rw [hchunks] at hc
-      obtain ⟨k, _, rfl⟩ := List.mem_map.mp hc
-      rw [length_chunkOf]
-      have := hfit.nEvents
-      have : min cfg.perFile (ids'.length - k * cfg.perFile) ≤ ids'.length := by omega
-      omega
-    · intro e he; exact (hidwf e (hsub e he)).1
-  have hdec := decodeAll_encode magic version hm hv chunks hchunkwf
-  set n := cues.length with hn
-  set nOut := outs.length with hnOut
-  let vals0 : Array R := extendVals w.vals w.outcomes.length w.cues.length nOut n
-  have hw0 : vals0.size = n * nOut := by
-    show (extendVals w.vals w.outcomes.length w.cues.length nOut n).size = n * nOut
-    rw [size_extendVals, Nat.mul_comm]
-  have hcuesok : ∀ e ∈ chunks.flatten, ∀ c ∈ e.cues, c < n := by
-    intro e he; rw [hflat] at he; exact (hidwf e he).2
-  have hrows : ∀ o ∈ List.range nOut, o < nOut := fun o ho => List.mem_range.mp ho
-  let vals' : Array R := match cfg.method with
-    | .threading => learnThreadingSeq alpha β₁ β₂ lam n chunks (List.range nOut) cfg.perJob vals0
-    | .openmp => learnOpenmpSeq alpha β₁ β₂ lam n chunks (List.range nOut) cfg.perJob vals0
-  have hrow : ∀ i, i < nOut →
-      rowFn n vals' i = rwLearn (fun _ => alpha) β₁ β₂ lam (fun o => rowFn n vals0 o) ids' i := by
-    intro i hi
-    show rowFn n (match cfg.method with
-      | .threading => learnThreadingSeq alpha β₁ β₂ lam n chunks (List.range nOut) cfg.perJob vals0
-      | .openmp => learnOpenmpSeq alpha β₁ β₂ lam n chunks (List.range nOut) cfg.perJob vals0) i = _
-    cases cfg.method with
-    | threading =>
-      simp only
-      rw [learnThreadingSeq_eq_spec alpha β₁ β₂ lam n nOut chunks (List.range nOut) cfg.perJob hjob
-        List.nodup_range hrows hcuesok _ hw0 i (List.mem_range.mpr hi), hflat]
-    | openmp =>
-      simp only
-      rw [learnOpenmpSeq_eq_spec alpha β₁ β₂ lam n nOut chunks (List.range nOut) cfg.perJob hjob
-        List.nodup_range hrows hcuesok _ hw0 i (List.mem_range.mpr hi), hflat]
+  have hmemc : ∀ e ∈ es, ∀ c ∈ e.cues, c ∈ cues := fun e he c hc =>
+    mem_append_filter_new _ _ _ ((countNames_mem es e he).1 c hc)
+  have hmemo : ∀ e ∈ es, ∀ o ∈ e.outcomes, o ∈ outs := fun e he o ho =>
+    mem_append_filter_new _ _ _ ((countNames_mem es e he).2 o ho)
   -- the extended initial array denotes the given weights
-  have hinit : ∀ o c, o ∈ outs → c ∈ cues → rowFn n vals0 (outs.idxOf o) (cues.idxOf c) = w.get o c := by
+  have hinit : ∀ o c, o ∈ outs → c ∈ cues →
+      rowFn cues.length (extendVals w.vals w.outcomes.length w.cues.length outs.length cues.length)
+        (outs.idxOf o) (cues.idxOf c) = w.get o c := by
     intro o c ho hc
-    have hi : outs.idxOf o < nOut := List.idxOf_lt_length_iff.mpr ho
-    have hj : cues.idxOf c < n := List.idxOf_lt_length_iff.mpr hc
+    have hi : outs.idxOf o < outs.length := List.idxOf_lt_length_iff.mpr ho
+    have hj : cues.idxOf c < cues.length := List.idxOf_lt_length_iff.mpr hc
     have hext := extendLW_get w cuesNew outsNew o c
     rw [← hext]
     unfold extendLW LW.get rowFn flatIdx
@@ -157,44 +62,46 @@ theorem ndlModel_continue_eq_spec (magic version : Nat) (hm : magic < 4294967296
     have hj' : (w.cues ++ cuesNew.filter (fun c => !w.cues.contains c)).idxOf c
         < (w.cues ++ cuesNew.filter (fun c => !w.cues.contains c)).length := hj
     rw [if_pos ⟨hi', hj'⟩, Nat.mul_comm]
-  refine ⟨⟨outs, cues, vals'⟩, ?_, ?_⟩
-  · unfold ndlModel
-    simp only [hcn]
-    have h1 : ¬ cfg.perFile < 2 := by omega
-    have h2 : ¬ cfg.perJob < 1 := by omega
-    have hmk' := hmk
-    simp only [hcues, houts] at hmk'
-    simp only [h1, if_false, hmk']
-    have hdec' := hdec
-    rw [← hfiles] at hdec'
-    simp only [hdec', h2, if_false]
-    rfl
-  · intro o c
-    by_cases ho : o ∈ outs
-    · by_cases hc : c ∈ cues
-      · have hi : outs.idxOf o < nOut := List.idxOf_lt_length_iff.mpr ho
-        have hj : cues.idxOf c < n := List.idxOf_lt_length_iff.mpr hc
-        have hget : (LW.get ⟨outs, cues, vals'⟩ o c : R) = rowFn n vals' (outs.idxOf o) (cues.idxOf c) := by
-          unfold LW.get rowFn flatIdx
-          have hi' : outs.idxOf o < outs.length := hi
-          have hj' : cues.idxOf c < cues.length := hj
-          simp only [hj]
-          rw [if_pos ⟨hi', hj'⟩, if_pos trivial, Nat.mul_comm]
-        rw [hget, hrow _ hi, hids']
-        exact rwLearn_rename_on f g (· ∈ cues) (· ∈ outs)
-          (fun a b ha hb h => idxOf_injOn cues a b ha hb h)
-          (fun a b ha hb h => idxOf_injOn outs a b ha hb h)
-          alpha β₁ β₂ lam (fun o c => w.get o c) (fun i j => rowFn n vals0 i j) es'
-          (fun e he => ⟨(hes' e he).1, (hes' e he).2.1⟩) (fun o c ho hc => hinit o c ho hc) o c ho hc
-      · have hcw : c ∉ w.cues := fun h => hc (List.mem_append_left _ h)
-        rw [LW.get_not_cue _ o c hc, rwLearn_unseen_cue _ _ _ _ _ _ o c
-          (fun e he hce => hc ((hes' e he).1 c hce)), LW.get_not_cue w o c hcw]
-    · have how : o ∉ w.outcomes := fun h => ho (List.mem_append_left _ h)
-      rw [LW.get_not_outcome _ o c ho]
-      have hz : (fun c => w.get o c) = fun _ => (0 : R) := by
-        funext c'; exact LW.get_not_outcome w o c' how
-      have := rwLearn_unseen_outcome (fun _ => alpha) β₁ β₂ lam (fun o c => w.get o c) es' o
-        (fun e he hoe => ho ((hes' e he).2.1 o hoe)) hz
-      rw [this]
+  obtain ⟨vals', hrun, hget⟩ := ndlCore_spec magic version hm hv cfg alpha β₁ β₂ lam cues outs hcfg
+    hfit.nCues hfit.nOuts _ (by rw [size_extendVals, Nat.mul_comm])
+    es es' hp hmemc hmemo hfit.nEvents hfit.perEvent (fun o c => w.get o c) hinit
+  have hes' : ∀ e' ∈ es', (∀ c ∈ e'.cues, c ∈ cues) ∧ (∀ o ∈ e'.outcomes, o ∈ outs) := by
+    intro e' he'
+    obtain ⟨e, he, hpe⟩ := applyPolicyAll_mem cfg.policy es es' hp e' he'
+    obtain ⟨s1, s2, _, _⟩ := applyPolicy_sub cfg.policy e e' hpe
+    exact ⟨fun c hc => hmemc e he c ((s1 c).mp hc), fun o ho => hmemo e he o ((s2 o).mp ho)⟩
+  refine ⟨⟨outs, cues, vals'⟩, hrun, ?_⟩
+  intro o c
+  by_cases ho : o ∈ outs
+  · by_cases hc : c ∈ cues
+    · exact hget o c ho hc
+    · have hcw : c ∉ w.cues := fun h => hc (List.mem_append_left _ h)
+      rw [LW.get_not_cue _ o c hc, rwLearn_unseen_cue _ _ _ _ _ _ o c
+        (fun e he hce => hc ((hes' e he).1 c hce)), LW.get_not_cue w o c hcw]
+  · have how : o ∉ w.outcomes := fun h => ho (List.mem_append_left _ h)
+    rw [LW.get_not_outcome _ o c ho]
+    have hz : (fun c => w.get o c) = fun _ => (0 : R) := by
+      funext c'; exact LW.get_not_outcome w o c' how
+    have := rwLearn_unseen_outcome (fun _ => alpha) β₁ β₂ lam (fun o c => w.get o c) es' o
+      (fun e he hoe => ho ((hes' e he).2 o hoe)) hz
+    rw [this]
+
+/-- **illegal `n_outcomes_per_job`** (continued call; conversion went through) -/
+theorem ndlModel_continue_perJob_errors (magic version : Nat) (hm : magic < 4294967296)
+    (hv : version < 4294967296) (cfg : NdlCfg) (alpha β₁ β₂ lam : R)
+    (hper : 2 ≤ cfg.perFile) (hperU : cfg.perFile < 4294967296) (w : LW R)
+    (es es' : List (Event String String)) (hp : applyPolicyAll cfg.policy es = some es')
+    (hfit : Fits32With w es) :
+    (cfg.method = .threading → cfg.perJob < 1 →
+      ndlModel magic version cfg alpha β₁ β₂ lam (some w) es = .error .value) ∧
+    (cfg.method = .openmp → 4294967296 ≤ cfg.perJob →
+      ndlModel magic version cfg alpha β₁ β₂ lam (some w) es = .error .other) ∧
+    (cfg.method = .openmp → cfg.perJob < 1 → es ≠ [] →
+      ndlModel magic version cfg alpha β₁ β₂ lam (some w) es = .error .other) := by
+  rw [ndlModel_some]
+  exact ndlCore_perJob_errors magic version hm hv cfg alpha β₁ β₂ lam _ _ hper hperU hfit.nCues hfit.nOuts _
+    es es' hp (fun e he c hc => mem_append_filter_new _ _ _ ((countNames_mem es e he).1 c hc))
+    (fun e he o ho => mem_append_filter_new _ _ _ ((countNames_mem es e he).2 o ho))
+    hfit.nEvents hfit.perEvent
 
 end Pyndl
